@@ -289,6 +289,18 @@ func checkC09(c CaseC09, info *Info) *Failure {
 	if !reflect.DeepEqual(subject, c.Map) {
 		return failf("receiver-modified", "map %s became %s", js, canon(subject))
 	}
+	if f := staleAfterChange(subject, "LeafNodes", func(v mxj.Map) string {
+		var out []string
+		for _, l := range v.LeafNodes(c.NoAttr) {
+			out = append(out, fmt.Sprintf("%s=%#v", l.Path, l.Value))
+		}
+		sort.Strings(out)
+		lp := v.LeafPaths(c.NoAttr)
+		sort.Strings(lp)
+		return fmt.Sprint(out, lp, len(v.LeafValues(c.NoAttr)))
+	}); f != nil {
+		return f
+	}
 	best, twoSep := 0, false
 	maxListLevels(c.Map, 0, false, &best, &twoSep)
 	info.ClassIf(c.Exotic, "exotic keys")
